@@ -292,3 +292,180 @@ def fam_S(tier):
                 variants = (0, 1, 2) if n <= 4 else (n % 3,)
             for variant in variants:
                 yield (s_case, sk, variant)
+
+
+# =============================================================================================
+# D: storage locations x assignment forms, with read-back of every location in scope
+# =============================================================================================
+def V(n):
+    return ("var", n)
+
+
+def IDX(b, i):
+    return ("idx", b, i if isinstance(i, tuple) else lit(i))
+
+
+def FLD(b, f):
+    return ("fld", b, f)
+
+
+def B(op, l, r):
+    return ("bin", op, l, r)
+
+
+def ASG(lv, e, op="="):
+    return ("expr", ("asg", op, lv, e))
+
+
+def d_skeleton(T, shape):
+    """Declarations, distinct initial values and the list of (selector expr) read-backs."""
+    r0, r1 = shape
+    num = (lambda k: lit(float(k))) if T == "float" else (lambda k: lit(k))
+    structs = [("P", [(T, "fa"), (T, "hb")]), ("Q", [(("arr", T, (2,)), "arr"), (T, "k")])]
+    globals_ = [(T, "g"), (("arr", T, (3,)), "ga"), (("struct", "P"), "gs"), (("arr", ("struct", "P"), (2,)), "gas")]
+    decls = [("decl", T, "v", num(3)), ("decl", T, "r", num(0)), ("decl", ("arr", T, (3,)), "la", None),
+             ("decl", ("arr", T, (r0, r1)), "m", None), ("decl", ("struct", "P"), "s", None),
+             ("decl", ("struct", "Q"), "q", None)]
+    locs = [V("v"), V("p"), V("r")]
+    init = []
+    k = 10
+
+    def put(lv):
+        nonlocal k
+        init.append(ASG(lv, num(k)))
+        locs.append(lv)
+        k += 1
+
+    for i in range(3):
+        put(IDX(V("la"), i))
+    for i in range(r0):
+        for j in range(r1):
+            put(IDX(IDX(V("m"), i), j))
+    put(FLD(V("s"), "fa"))
+    put(FLD(V("s"), "hb"))
+    put(IDX(FLD(V("q"), "arr"), 0))
+    put(IDX(FLD(V("q"), "arr"), 1))
+    put(FLD(V("q"), "k"))
+    return structs, globals_, decls + init, locs
+
+
+def d_globals(T):
+    c = (lambda k: float(k)) if T == "float" else (lambda k: k)
+    return {"g": c(40), "ga": [c(41), c(42), c(43)], "gs": {"fa": c(44), "hb": c(45)},
+            "gas": [{"fa": c(46), "hb": c(47)}, {"fa": c(48), "hb": c(49)}]}
+
+
+def d_case(T, shape, write, desc, dyn):
+    structs, globals_, setup, locs = d_skeleton(T, shape)
+    zero = lit(0.0) if T == "float" else lit(0)
+    readback = [("if", B("==", V("sel"), lit(n)), ("block", [("ret", lv)]), None) for n, lv in enumerate(locs)]
+    body = setup + write + readback + [("ret", zero)]
+    f = func("f", [("int", "sel"), ("int", "i"), ("int", "a"), ("float", "x"), (T, "p")], T, body)
+    inputs = []
+    pv = 7.0 if T == "float" else 7
+    ivals = dyn if dyn else (0,)
+    for i in ivals:
+        for a, x in ((2, 1.5), (-3, 0.5)):
+            for sel in range(len(locs)):
+                inputs.append(({"sel": sel, "i": i, "a": a, "x": x, "p": pv}, d_globals(T)))
+    return {"fam": "D", "desc": desc, "prog": {"structs": structs, "globals": globals_},
+            "units": [{"funcs": [f], "entry": "f", "inputs": inputs}]}
+
+
+def d_locations(shape):
+    r0, r1 = shape
+    I = V("i")
+    return [
+        ("local", V("v"), None), ("param", V("p"), None), ("global", V("g"), None),
+        ("arr-const", IDX(V("la"), 1), None), ("arr-dyn", IDX(V("la"), I), (0, 2)),
+        ("arr2-const", IDX(IDX(V("m"), r0 - 1), r1 - 1), None), ("arr2-dyn-outer", IDX(IDX(V("m"), I), 1), tuple(range(r0))),
+        ("arr2-dyn-inner", IDX(IDX(V("m"), 1), I), tuple(range(r1))),
+        ("field", FLD(V("s"), "fa"), None), ("garr-of-struct-const", FLD(IDX(V("gas"), 1), "hb"), None),
+        ("garr-of-struct-dyn", FLD(IDX(V("gas"), I), "fa"), (0, 1)), ("struct-arr-const", IDX(FLD(V("q"), "arr"), 1), None),
+        ("struct-arr-dyn", IDX(FLD(V("q"), "arr"), I), (0, 1)), ("struct-field-after-arr", FLD(V("q"), "k"), None),
+        ("garr-const", IDX(V("ga"), 1), None), ("garr-dyn", IDX(V("ga"), I), (0, 2)), ("gfield", FLD(V("gs"), "hb"), None),
+    ]
+
+
+def d_rhs(T):
+    if T == "int":
+        return [("lit", lit(2)), ("var", V("a")), ("sum", B("+", V("a"), lit(1))), ("diff", B("-", V("a"), V("i")))]
+    return [("lit", lit(1.5)), ("var", V("x")), ("prod", B("*", V("x"), lit(2))), ("intvar", V("a")), ("mixed", B("+", V("x"), V("a")))]
+
+
+@family("D")
+def fam_D(tier):
+    shapes = [(2, 3), (3, 2), (2, 2)]
+    for T in ("int", "float"):
+        for si, shape in enumerate(shapes):
+            for lname, lv, dyn in d_locations(shape):
+                if si > 0 and not lname.startswith("arr2"):
+                    continue
+                for op in ("=", "+=", "-=", "*=", "/="):
+                    for rname, rhs in d_rhs(T):
+                        yield (d_case, T, shape, [ASG(lv, rhs, op)], f"loc={lname};form={op};type={T}", dyn)
+        # ++/-- on plain variables, as statement and as the single side-effecting operand
+        for lname in ("v", "p", "g"):
+            for kind in ("pre", "post"):
+                for op in ("++", "--"):
+                    af = (kind, op, lname)
+                    yield (d_case, T, shapes[0], [("expr", af)], f"loc={lname};form={kind}{op};type={T}", None)
+                    yield (d_case, T, shapes[0], [ASG(V("r"), B("*", af, lit(2)))], f"loc={lname};form={kind}{op}-operand;type={T}", None)
+                    yield (d_case, T, shapes[0], [ASG(V("r"), B("-", lit(5), af))], f"loc={lname};form={kind}{op}-operand;type={T}", None)
+                    yield (d_case, T, shapes[0], [ASG(IDX(V("la"), 1), af)], f"loc={lname};form={kind}{op}-stored;type={T}", None)
+
+
+# =============================================================================================
+# R: declarations re-executed inside loops (zero-/re-initialisation, fresh aggregates)
+# =============================================================================================
+def r_case(kind, loop, place, pos):
+    T = "float" if kind == "float" else "int"
+    structs = [("P", [("int", "fa"), ("int", "hb")])]
+    bump = lambda lv: ASG(lv, B("+", B("+", lv, V("n")), lit(1)))
+    tr = lambda e: ASG(V("t"), B("%", B("+", B("*", V("t"), lit(31)), e), lit(MOD)))
+    if kind == "int":
+        decl, uses = ("decl", "int", "v", None), [bump(V("v")), tr(V("v"))]
+    elif kind == "int-init":
+        decl, uses = ("decl", "int", "v", lit(5)), [bump(V("v")), tr(V("v"))]
+    elif kind == "float":
+        decl, uses = ("decl", "float", "v", None), [bump(V("v")), ASG(V("u"), B("+", V("u"), V("v")))]
+    elif kind == "array":
+        decl, uses = ("decl", ("arr", "int", (2,)), "v", None), [bump(IDX(V("v"), 1)), tr(B("+", IDX(V("v"), 0), IDX(V("v"), 1)))]
+    elif kind == "array2":
+        decl = ("decl", ("arr", "int", (2, 2)), "v", None)
+        uses = [bump(IDX(IDX(V("v"), 1), 0)), tr(B("+", B("+", IDX(IDX(V("v"), 0), 0), IDX(IDX(V("v"), 0), 1)), B("+", IDX(IDX(V("v"), 1), 0), IDX(IDX(V("v"), 1), 1))))]
+    elif kind == "struct":
+        decl, uses = ("decl", ("struct", "P"), "v", None), [bump(FLD(V("v"), "hb")), tr(B("+", FLD(V("v"), "fa"), FLD(V("v"), "hb")))]
+    else:
+        raise ValueError(kind)
+    core = [decl] + uses if pos == "first" else [tr(lit(7)), decl] + uses
+    if place == "body":
+        inner = core
+    elif place == "block":
+        inner = [("block", core), tr(lit(3))]
+    elif place == "if":
+        inner = [("if", B("<", V("n"), lit(5)), ("block", core), None)]
+    elif place == "nested":
+        inner = [("for", ("decl", "int", "j", lit(0)), B("<", V("j"), lit(2)), ("pre", "++", "j"), ("block", core))]
+    inc = ASG(V("n"), B("+", V("n"), lit(1)))
+    if loop == "for":
+        loopst = [("for", ("decl", "int", "k", lit(0)), B("<", V("k"), lit(3)), ("pre", "++", "k"), ("block", inner + [inc]))]
+    elif loop == "while":
+        loopst = [("while", B("<", V("n"), lit(3)), ("block", inner + [inc]))]
+    else:
+        loopst = [("do", ("block", inner + [inc]), B("<", V("n"), lit(3)))]
+    body = [("decl", "int", "t", lit(1)), ("decl", "int", "n", lit(0)), ("decl", "float", "u", lit(0.0))] + loopst
+    ret = "float" if kind == "float" else "int"
+    body += [("ret", V("u") if kind == "float" else V("t"))]
+    f = func("f", [("int", "a")], ret, body)
+    return {"fam": "R", "desc": f"decl={kind};loop={loop};place={place}", "prog": {"structs": structs},
+            "units": [{"funcs": [f], "entry": "f", "inputs": [({"a": 0}, {})]}]}
+
+
+@family("R")
+def fam_R(tier):
+    for kind in ("int", "int-init", "float", "array", "array2", "struct"):
+        for loop in ("for", "while", "do"):
+            for place in ("body", "block", "if", "nested"):
+                for pos in ("first", "middle"):
+                    yield (r_case, kind, loop, place, pos)
